@@ -1591,6 +1591,13 @@ class Interp:
                     yield v, env, st
                 elif isinstance(v, Sym):
                     yield v, env, st
+                elif isinstance(v, NonInt):
+                    # a value of another type: int() converts it (a float,
+                    # a numeric string) or refuses it
+                    e2, s2 = self.forkenv(env, st)
+                    yield IvInt("coerced"), e2, s2
+                    yield Raise("ValueError: invalid literal for int()",
+                                node), env, st
                 else:
                     raise Unsupported("int(%r)" % (v,))
             elif n == "bool":
